@@ -240,7 +240,7 @@ pub fn run(ctx: &Ctx) -> i32 {
         }
     });
     // (C) thread counts, real pool, watchdog; few games because every solve builds a pool
-    let mut games_c: Vec<Tree> = games_b.iter().step_by(if ctx.thorough() { 97 } else { 401 }).cloned().collect();
+    let mut games_c: Vec<Tree> = games_b.iter().step_by(if ctx.thorough() { 1999 } else { 401 }).cloned().collect();
     games_c.extend(families().into_iter().filter(|(n, _)| n == "kuhn" || n == "wide_shared_4" || n == "deep_chain_6").map(|(_, t)| t));
     games_c.push(crate::universe::kary_alternating(2, 4));
     ctx.set("thread_count_games", json!(games_c.len()));
